@@ -526,6 +526,12 @@ func (e *Effects) Owners(f *ssa.Function) []*ssa.Function {
 			return
 		}
 		cs := e.staticCallers(g)
+		// a straight-line accessor that nothing in scope calls any more (a setter / deleter
+		// wrapper left behind when its only caller started using the collection directly) is
+		// dead API surface: it cannot run unless the app calls it (A7) and owns nothing
+		if len(cs) == 0 && e.Transparent(g) && len(g.Blocks) == 1 && g.Signature.Recv() != nil && !e.isEntryLike(g) {
+			return
+		}
 		if !e.Transparent(g) || len(cs) == 0 {
 			res[g] = true
 			return
@@ -836,4 +842,15 @@ func localFuncSlice(v ssa.Value) bool {
 		}
 	}
 	return n > 0
+}
+
+// isEntryLike: methods of module / server types the SDK calls by name (AppModule hooks,
+// gRPC servers): never dead, even when nothing in scope calls them.
+func (e *Effects) isEntryLike(g *ssa.Function) bool {
+	r := g.Signature.Recv()
+	if r == nil {
+		return false
+	}
+	n := typeName(r.Type())
+	return strings.Contains(n, "AppModule") || strings.Contains(n, "MsgServer") || strings.Contains(n, "Querier") || strings.Contains(n, "Hook")
 }
